@@ -46,10 +46,34 @@ OPS = [
     (r"Some\(to\.to_string\(\)\)", "None"),
     (r"\b30\b", "31"), (r"\b10\b", "11"), (r"\b18\b", "17"), (r"\b1\b", "2"), (r"\b0\b", "1"),
 ]
+# second round: identifier swaps, constants, condition negation
+OPS2 = [
+    (r"\boffer_pool\b", "ask_pool"), (r"\bask_pool\b", "offer_pool"),
+    (r"\boffer_decimal\b", "ask_decimal"), (r"\bask_decimal\b", "offer_decimal"),
+    (r"\breturn_amount\b", "spread_amount"), (r"\bcommission_amount\b", "spread_amount"), (r"\bspread_amount\b", "commission_amount"),
+    (r"\btotal_share\b", "share"), (r"\boffer_amount\b", "ask_amount"), (r"\bask_amount\b", "offer_amount"),
+    (r"\boffer_asset_info\b", "ask_asset_info"), (r"\bask_asset_info\b", "offer_asset_info"),
+    (r"\bsender\b", "receiver"), (r"\breceiver\b", "sender"),
+    (r"checked_add", "checked_sub"), (r"checked_mul", "checked_div"), (r"checked_div", "checked_mul"),
+    (r"Uint256::one\(\)", "Uint256::zero()"), (r"Decimal256::one\(\)", "Decimal256::zero()"),
+    (r"Uint128::zero\(\)", "Uint128::one()"), (r"Uint256::zero\(\)", "Uint256::one()"), (r"Decimal256::zero\(\)", "Decimal256::one()"),
+    (r"\btrue\b", "false"), (r"\bfalse\b", "true"),
+    (r"\.unwrap_or\(([a-z_\.]+)\)", ".unwrap()"),
+    (r"\bmax_spread\b", "belief_price"),
+    (r"\.rev\(\)", ""), (r"\.skip\(1\)", ""), (r"\.take\(limit\)", ".take(limit + 1)"),
+    (r"decimals\[0\]", "decimals[1]"),
+    (r" \+= ", " -= "), (r" -= ", " += "),
+    (r"Order::Ascending", "Order::Descending"),
+    (r"\.is_native_token\(\)", ".is_native_token() == false"),
+    (r"\.is_some\(\)", ".is_none()"), (r"\.is_none\(\)", ".is_some()"),
+    (r"DEFAULT_COMMISSION_RATE", "\"0.3\""),
+]
+NEGATE = re.compile(r"^(\s*)(\}?\s*(?:else\s+)?if )((?!let ).+) \{\s*$")
 GUARD = re.compile(r"^(\s*)(\}?\s*(?:else\s+)?if )(.+) \{\s*$")
 
 
-def mutants():
+def mutants(ops=None, negate=False):
+    ops = ops or OPS
     out = []
     for rel, maxline in FILES:
         src = open(os.path.join("/repo", rel)).read().split("\n")
@@ -63,11 +87,17 @@ def mutants():
             if "const CONTRACT_" in line or "attr" in line and "add_attribute" in line:
                 continue
             code = line.split("//")[0]
-            for pat, rep in OPS:
+            for pat, rep in ops:
                 for m in re.finditer(pat, code):
                     new = code[:m.start()] + rep + code[m.end():]
                     if new != code:
                         out.append({"file": rel, "line": i + 1, "orig": line, "new": new, "op": f"{pat} -> {rep}", "col": m.start()})
+            ng = NEGATE.match(code)
+            if negate and ng:
+                out.append({"file": rel, "line": i + 1, "orig": line, "new": f"{ng.group(1)}{ng.group(2)}!({ng.group(3)}) {{",
+                            "op": "condition negated", "col": 0})
+            if negate:
+                continue
             # guard removal: `if cond {` followed by a `return Err(` / panic line → `if false && (cond) {`
             g = GUARD.match(code)
             if g and i + 1 < len(src) and ("return Err(" in src[i + 1] or "panic!" in src[i + 1]):
@@ -179,8 +209,16 @@ def main():
     ap.add_argument("--only", default="")
     ap.add_argument("--stride", type=int, default=1, help="take every k-th mutant")
     ap.add_argument("--offset", type=int, default=0)
+    ap.add_argument("--recheck", default="", help="re-evaluate the mutants that an earlier results file gave one of these statuses (comma separated)")
+    ap.add_argument("--results", default="results.jsonl")
+    ap.add_argument("--round2", action="store_true", help="second operator set (identifier swaps, constants, negated conditions)")
     a = ap.parse_args()
-    ms = mutants()
+    ms = mutants(OPS2, True) if a.round2 else mutants()
+    if a.recheck:
+        want = set(a.recheck.split(","))
+        old = [json.loads(l) for l in open(os.path.join(a.out, "results.jsonl"))]
+        keys = {(r["file"], r["line"], r["new"]) for r in old if r["status"] in want}
+        ms = [m for m in ms if (m["file"], m["line"], m["new"]) in keys]
     if a.only:
         ms = [m for m in ms if re.search(a.only, m["file"] + ":" + m["op"])]
     ms = ms[a.offset::a.stride]
@@ -193,7 +231,7 @@ def main():
     workers = [prepare_worker(root, k) for k in range(a.workers)]
     print("workers ready", flush=True)
     chunks = [ms[k::a.workers] for k in range(a.workers)]
-    resf = open(os.path.join(a.out, "results.jsonl"), "a")
+    resf = open(os.path.join(a.out, a.results), "a")
 
     def work(k):
         out = []
@@ -210,7 +248,7 @@ def main():
     for r in allr:
         counts[r["status"]] = counts.get(r["status"], 0) + 1
     print(counts)
-    with open(os.path.join(a.out, "survivors.txt"), "a") as fh:
+    with open(os.path.join(a.out, "survivors.txt" if not a.recheck else "survivors-recheck.txt"), "a") as fh:
         for r in allr:
             if r["status"] == "SURVIVED":
                 fh.write(f"{r['file']}:{r['line']} [{r['op']}]\n    - {r['orig'].strip()}\n    + {r['new'].strip()}\n")
